@@ -38,13 +38,13 @@ func runC11(c *Ctx) {
 		enc := Calls(ser, "(*encoding/base64.Encoding).EncodeToString")
 		dec := Calls(send, "(*encoding/base64.Encoding).DecodeString")
 		if len(enc) == 1 && len(dec) == 1 {
-			e0, d0 := PathOf(CallOf(enc[0]).Args[0]), PathOf(CallOf(dec[0]).Args[0])
+			e0, d0 := PathOf(PArgs(CallOf(enc[0]))[0]), PathOf(PArgs(CallOf(dec[0]))[0])
 			c.Check("C11.E", "codec:same-base64-encoding", p, enc[0].Pos(), e0 == d0 && e0 != "", "encoder and decoder use the same *base64.Encoding ("+e0+")", "poll replies are encoded with "+e0+" but data posts are decoded with "+d0)
-			c.PathIs("C11.E", "codec:encodes-message-data", p, enc[0].Pos(), CallOf(enc[0]).Args[1], "the encoded bytes are the message's Data", P(ser, 0)+".Data")
+			c.PathIs("C11.E", "codec:encodes-message-data", p, enc[0].Pos(), PArgs(CallOf(enc[0]))[1], "the encoded bytes are the message's Data", P(ser, 0)+".Data")
 			// version polarity
 			verEnv := func(fn *ssa.Function, ver int64, typ int64) Env {
 				return func(v ssa.Value) (constant.Value, bool) {
-					if fn == ser && len(fn.Params) > 1 && v == ssa.Value(fn.Params[1]) {
+					if fn == ser && len(fn.Params) > 1 && v == ssa.Value(ParamAt(fn, 1)) {
 						return IntC(ver), true
 					}
 					if _, fld, ok := FieldLoad(v); ok {
@@ -210,7 +210,7 @@ func runC11(c *Ctx) {
 			c.Check("C11.O", "data:abort-on-first-error", p, sc.Pos(), c12Like, "a failed send ends the post (no later message of the batch is sent after a gap)", "after a failed send the loop continues with the following messages: the backend sees a gap in the sequence")
 		}
 		if um := c.UniqueCall("C11.O", p, d, false, "encoding/json.Unmarshal"); um != nil {
-			c.PathIs("C11.O", "data:decodes-own-body", p, um.Pos(), CallOf(um).Args[0], "the batch is decoded from this call's body", "result0:io/ioutil.ReadAll", "result0:io.ReadAll")
+			c.PathIs("C11.O", "data:decodes-own-body", p, um.Pos(), PArgs(CallOf(um))[0], "the batch is decoded from this call's body", "result0:io/ioutil.ReadAll", "result0:io.ReadAll")
 		}
 	}
 	if send != nil {
@@ -250,7 +250,7 @@ func runC11(c *Ctx) {
 			if wm := Calls(g, "(*github.com/gorilla/websocket.Conn).WriteMessage"); len(wm) > 0 {
 				ok := len(wm) == 1
 				if ok {
-					a := CallOf(wm[0]).Args
+					a := PArgs(CallOf(wm[0]))
 					ok = false
 					b1, f1, ok1 := FieldLoad(a[1])
 					b2, f2, ok2 := FieldLoad(a[2])
@@ -316,17 +316,17 @@ func runC11(c *Ctx) {
 			if b, isB := call.Call.Value.(*ssa.Builtin); !isB || b.Name() != "append" {
 				return
 			}
-			tail, _ := DerivesFrom(call.Call.Args[1], func(v ssa.Value) bool {
+			tail, _ := DerivesFrom(PArgs(&call.Call)[1], func(v ssa.Value) bool {
 				cc, isC := v.(*ssa.Call)
 				return isC && CalleeName(cc.Common()) == "(*"+pkg+".message).Serialize"
 			}, func(ssa.Value) bool { return false })
-			head, _ := DerivesFrom(call.Call.Args[0], func(v ssa.Value) bool {
+			head, _ := DerivesFrom(PArgs(&call.Call)[0], func(v ssa.Value) bool {
 				cc, isC := v.(*ssa.Call)
 				return isC && CalleeName(cc.Common()) == "(*"+pkg+".message).Serialize" && !InLoop(cc.Block()) && false
 			}, func(ssa.Value) bool { return false })
 			_ = head
 			// the first argument must not be a fresh literal holding the new message (prepend)
-			if sl, isS := call.Call.Args[0].(*ssa.Slice); isS {
+			if sl, isS := PArgs(&call.Call)[0].(*ssa.Slice); isS {
 				if _, isA := sl.X.(*ssa.Alloc); isA {
 					bad = "a received message is prepended (append([]{new}, old...)) at " + p.Pos(i.Pos()) + ": messages are delivered in reverse order"
 				}
@@ -386,7 +386,7 @@ func runC11(c *Ctx) {
 		pl := se.ByName["poll"]
 		if mj := c.UniqueCall("C11.O", p, pl, false, "encoding/json.Marshal"); mj != nil {
 			ok := false
-			for _, r := range Roots(CallOf(mj).Args[0]) {
+			for _, r := range Roots(PArgs(CallOf(mj))[0]) {
 				if CallResult(r, 0, "(*"+pkg+".Connection).ReadServerMessages") != nil {
 					ok = true
 				}
@@ -405,7 +405,7 @@ func runC11(c *Ctx) {
 	// ---- C11.J
 	if inj := c.need(p, "C11.J", "agent/websockets.injectWebsocketMessage"); inj != nil {
 		um := Calls(inj, "encoding/json.Unmarshal")
-		okU := len(um) == 1 && PathOf(CallOf(um[0]).Args[0]) == P(inj, 0)+".Data" && len(Calls(inj, "encoding/json.NewDecoder")) == 0
+		okU := len(um) == 1 && PathOf(PArgs(CallOf(um[0]))[0]) == P(inj, 0)+".Data" && len(Calls(inj, "encoding/json.NewDecoder")) == 0
 		c.Check("C11.J", "inject:parses-whole-message", p, inj.Pos(), okU, "the message is parsed with json.Unmarshal(msg.Data, …), which rejects anything that is not exactly one JSON document", "the message is not parsed with a single json.Unmarshal of msg.Data (a streaming Decoder accepts a JSON object followed by more data and the rest of the payload is then dropped)")
 		n := 0
 		EachInstr(inj, func(i ssa.Instruction) {
@@ -445,7 +445,7 @@ func runC11(c *Ctx) {
 			guard := false
 			for _, g := range GuardingIfs(ic) {
 				cond, trueSucc := BoolTest(g.If)
-				if cond == ssa.Value(send.Params[2]) && g.Succ == trueSucc {
+				if cond == ssa.Value(ParamAt(send, 2)) && g.Succ == trueSucc {
 					guard = true
 				}
 			}
